@@ -16,8 +16,8 @@ CONSTANTS Engine,      \* "sync" | "async"
           GuardVals,   \* subset of {"T","F","R"} each guard may take per step
           WithCan      \* TRUE: also explore can(e)
 
-VARIABLES status, config, hist, ctx, output, out, lastStep, errv
-vars == <<mi, status, config, hist, ctx, output, out, lastStep, errv>>
+VARIABLES status, config, hist, ctx, output, out, lastStep, errv, dirty
+vars == <<mi, status, config, hist, ctx, output, out, lastStep, errv, dirty>>
 
 Pack == [config |-> config, hist |-> hist, status |-> status, ctx |-> ctx, queue |-> <<>>,
          out |-> <<>>, err |-> NoErr, rd |-> 0, output |-> output]
@@ -32,7 +32,7 @@ Init == /\ mi \in 1..Len(Machines)
         /\ ctx = Machines[mi].ctx0
         /\ output = NONE
         /\ out = <<>> /\ lastStep = [op |-> "init", ev |-> "", gv |-> <<>>]
-        /\ errv = NoErr
+        /\ errv = NoErr /\ dirty = FALSE
 
 Apply(st, step) ==
   /\ config' = st.config /\ status' = st.status /\ ctx' = st.ctx
@@ -40,6 +40,9 @@ Apply(st, step) ==
   /\ hist' = IF Engine = "pure" THEN [p \in DOMAIN st.hist |-> {}] ELSE st.hist
   /\ output' = st.output
   /\ out' = st.out /\ lastStep' = step /\ errv' = st.err
+  \* a step that raised out of the public call may leave events in the queue (sync) or a
+  \* half-started interpreter; the quiescent-state model does not continue from there
+  /\ dirty' = (st.err # NoErr /\ (st.queue # <<>> \/ step.op = "start"))
   /\ UNCHANGED mi
 
 GVs == [D.guards -> GuardVals]
@@ -48,7 +51,7 @@ GVs == [D.guards -> GuardVals]
 \* (events left in the queue); exploration does not continue from such a state
 \* ... nor from an illegal configuration: only the FIRST illegal state of a run
 \* is attributable to a step
-Usable == errv = NoErr /\ (status = "uninitialized" \/ Legal(config))
+Usable == ~dirty /\ (status = "uninitialized" \/ Legal(config))
 
 Start == /\ Usable /\ status = "uninitialized"
          /\ \E gv \in GVs : Apply(StartStep(Pack, gv, Engine), [op |-> "start", ev |-> "", gv |-> gv])
@@ -70,7 +73,7 @@ Can == /\ WithCan /\ Usable /\ status # "uninitialized"
 Next == Start \/ Send \/ Can
 Spec == Init /\ [][Next]_vars
 
-View == <<mi, status, config, hist, ctx, output, errv>>
+View == <<mi, status, config, hist, ctx, output, dirty>>
 
 --------------------------------------------------------------------------
 Proj(c, h, s, x, o, e) == [config |-> c, hist |-> h, status |-> s, ctx |-> x, output |-> o, err |-> e]
@@ -81,9 +84,9 @@ Props == [C01 |-> C01(PreS, lastStep', PostS, out'),
           C02 |-> C02(PreS, lastStep', PostS, out'),
           C03 |-> C03(PreS, lastStep', PostS, out')]
 
-Emit == PrintT(ToJson([mi |-> mi, from |-> PreS, step |-> lastStep', to |-> PostS,
+Emit == PrintT(ToJson([mi |-> mi, from |-> PreS, step |-> lastStep', to |-> PostS, dirty |-> dirty',
                        out |-> out', prop |-> Props]))
 
 \* spec-level invariants (informational: a failure is replayed on the real engine)
-LegalInv == status \in {"running", "done", "error"} /\ errv = NoErr => Legal(config)
+LegalInv == status \in {"running", "done", "error"} /\ ~dirty => Legal(config)
 =============================================================================
